@@ -19,9 +19,25 @@ const FindingCondSwallowed = "cond-error-swallowed"
 // is "swallowable": another valid tuple on the same object type and relation passes its condition
 // (or has none), i.e. can share a datastore read with it and so mask its error.
 func SwallowExplains(rc *ref.Case, object, relation, user string, decided bool) bool {
+	return swallowExplains(rc, object, relation, user, decided, false)
+}
+
+// SwallowExplainsV2 is the variant for the weighted-graph engine, whose filtered iterators
+// (internal/iterator.NewFilteredIterator: "if none of the tuples are valid AND there are errors,
+// returns the last error") batch tuples differently (bottom-up reads across objects): any
+// unevaluable tuple may be dropped.
+func SwallowExplainsV2(rc *ref.Case, object, relation, user string, decided bool) bool {
+	return swallowExplains(rc, object, relation, user, decided, true)
+}
+
+func swallowExplains(rc *ref.Case, object, relation, user string, decided bool, any bool) bool {
 	var sw []*openfgav1.TupleKey
 	valid := rc.ValidTuples()
 	for _, t := range rc.Unevaluable() {
+		if any {
+			sw = append(sw, t)
+			continue
+		}
 		ot, _ := ref.SplitObject(t.GetObject())
 		for _, u := range valid {
 			if u == t || rc.CondValue(u) != ref.T {
@@ -183,4 +199,146 @@ const FindingDegenerateIntersection = "optimized-degenerate-intersection-error"
 // shortfall/excess is explained by the per-object deviation models.
 func ClassifyLimit(prefix, engine string, rc *ref.Case, relation, user string, want, got []string, mode drive.Mode) string {
 	return ""
+}
+
+
+// FindingV2TuplesetUserset: the weighted-graph engine reads tupleset relations with a type-prefix
+// user filter and does not drop (invalid, left-over) tuples whose user is a userset "T:id#rel"; it
+// then follows "T:id" as if it were the parent object.
+const FindingV2TuplesetUserset = "v2-tupleset-userset-tuple-followed"
+
+// V2TuplesetUsersetExplains is the executable deviation model of FindingV2TuplesetUserset: the
+// reference value is F, the server allowed, and the reference value becomes T when every tuple on a
+// tupleset relation whose user is a userset is replaced by the same tuple with the userset's object.
+func V2TuplesetUsersetExplains(rc *ref.Case, object, relation, user string) bool {
+	return V2TuplesetUsersetValue(rc, object, relation, user) == ref.T
+}
+
+// V2TuplesetUsersetValue returns the reference value under the deviation (tupleset tuples whose user
+// is a userset count as tuples to the userset's object), or -1 when the case has no such tuple.
+func V2TuplesetUsersetValue(rc *ref.Case, object, relation, user string) ref.Tri {
+	var alt []*openfgav1.TupleKey
+	changed := false
+	for _, tk := range rc.Tuples {
+		ot, _ := ref.SplitObject(tk.GetObject())
+		if rc.Model.IsTupleset(ot, tk.GetRelation()) && ref.IsUserset(tk.GetUser()) {
+			uo, _ := ref.UserParts(tk.GetUser())
+			alt = append(alt, &openfgav1.TupleKey{Object: tk.GetObject(), Relation: tk.GetRelation(), User: uo, Condition: tk.GetCondition()})
+			changed = true
+			continue
+		}
+		alt = append(alt, tk)
+	}
+	if !changed {
+		return -1
+	}
+	return ref.NewCase(rc.Model, alt, rc.Context, object, user).Eval(user).K(object, relation)
+}
+
+// HasExclusion reports whether the rewrite of typ#rel contains a difference, following computed
+// usersets of the same type.
+func HasExclusion(m *ref.Model, typ, rel string) bool {
+	seen := map[string]bool{}
+	var walk func(us *openfgav1.Userset) bool
+	var walkRel func(r string) bool
+	walk = func(us *openfgav1.Userset) bool {
+		switch u := us.GetUserset().(type) {
+		case *openfgav1.Userset_Difference:
+			return true
+		case *openfgav1.Userset_ComputedUserset:
+			return walkRel(u.ComputedUserset.GetRelation())
+		case *openfgav1.Userset_Union:
+			for _, ch := range u.Union.GetChild() {
+				if walk(ch) {
+					return true
+				}
+			}
+		case *openfgav1.Userset_Intersection:
+			for _, ch := range u.Intersection.GetChild() {
+				if walk(ch) {
+					return true
+				}
+			}
+		}
+		return false
+	}
+	walkRel = func(r string) bool {
+		if seen[r] {
+			return false
+		}
+		seen[r] = true
+		us := m.Rewrite(typ, r)
+		return us != nil && walk(us)
+	}
+	return walkRel(rel)
+}
+
+// FindingV2SharedVisited: the weighted-graph engine denies a permitted object subject when the
+// target relation reaches the same recursive userset relation (T#r with restriction T#r) through two
+// or more rewrite paths (e.g. "viewer: blocked or [doc#viewer] or blocked", or via computed
+// relations): the evaluations share one visited-userset filter per request, so the second path finds
+// the userset already visited.
+const FindingV2SharedVisited = "v2-recursive-userset-reached-twice"
+
+// RecursiveUsersetReachedTwice is the firing condition of FindingV2SharedVisited: following only
+// computed-userset edges from typ#rel, some direct-assignment leaf of a self-recursive relation is
+// reached at least twice.
+func RecursiveUsersetReachedTwice(m *ref.Model, typ, rel string) bool {
+	count := map[string]int{}
+	var walkRel func(r string, depth int)
+	var walk func(r string, us *openfgav1.Userset, depth int)
+	walk = func(r string, us *openfgav1.Userset, depth int) {
+		if depth > 12 {
+			return
+		}
+		switch u := us.GetUserset().(type) {
+		case *openfgav1.Userset_This:
+			for _, rr := range m.Restrictions(typ, r) {
+				if rr.GetType() == typ && rr.GetRelation() == r {
+					count[r]++
+					return
+				}
+			}
+		case *openfgav1.Userset_ComputedUserset:
+			walkRel(u.ComputedUserset.GetRelation(), depth+1)
+		case *openfgav1.Userset_Union:
+			for _, ch := range u.Union.GetChild() {
+				walk(r, ch, depth)
+			}
+		case *openfgav1.Userset_Intersection:
+			for _, ch := range u.Intersection.GetChild() {
+				walk(r, ch, depth)
+			}
+		case *openfgav1.Userset_Difference:
+			walk(r, u.Difference.GetBase(), depth)
+			walk(r, u.Difference.GetSubtract(), depth)
+		}
+	}
+	walkRel = func(r string, depth int) {
+		if us := m.Rewrite(typ, r); us != nil {
+			walk(r, us, depth)
+		}
+	}
+	walkRel(rel, 0)
+	for _, n := range count {
+		if n >= 2 {
+			return true
+		}
+	}
+	return false
+}
+
+
+// ErrorNamesInvalidTuplesetTuple reports whether a condition-evaluation error names a tuple of the
+// case that sits on a tupleset relation with a userset user (invalid for the model, must be ignored).
+func ErrorNamesInvalidTuplesetTuple(rc *ref.Case, err error) bool {
+	msg := drive.ErrDetail(err)
+	for _, tk := range rc.Tuples {
+		ot, _ := ref.SplitObject(tk.GetObject())
+		if rc.Model.IsTupleset(ot, tk.GetRelation()) && ref.IsUserset(tk.GetUser()) &&
+			strings.Contains(msg, "'"+tk.GetObject()+"#"+tk.GetRelation()+"@"+tk.GetUser()+"'") {
+			return true
+		}
+	}
+	return false
 }
